@@ -194,3 +194,40 @@ def geometry_mesh_ref_axis(env, nx, ny, symmetry, ref_axis_pos):
     f = [(1 + (t[0] - 1) * env.const(abs(y[j] - y[r]) / tip)) * c[j] for j in range(nyy)]
     env.eq("C13", "group: chord length of every section == original * taper(y) * chord factor (twist preserves it)",
            (cv_out * cv_out).sum(axis=1), (cv_in * cv_in).sum(axis=1) * np.array([fj * fj for fj in f], dtype=object if env.sym else float))
+
+
+@job("c13.dictionary_reuse", ("C13", "C20"), cfgs=[dict(symmetry=True), dict(symmetry=False)])
+def dictionary_reuse(env, symmetry):
+    """planform study the way user scripts do it: one surface dictionary, reused (as is, or shallow-copied) for a second
+    model with another mesh.  Setting up the geometry groups leaves the dictionary's keys and values as the user wrote them,
+    and the all-default geometry of the second model is again its own mesh (nothing of the first model is remembered in the
+    dictionary)"""
+    import copy
+    import openmdao.api as om
+    from ..surfaces import mesh as mkmesh
+    ny = 3 if symmetry else 5
+    s = surface(name="wing", nx=2, ny=ny, symmetry=symmetry)
+    for k in ("twist_cp", "thickness_cp", "span"):
+        s.pop(k, None)
+    snap = copy.deepcopy(s)
+
+    def same(a, b):
+        if set(a) != set(b):
+            return False
+        return all(np.array_equal(np.asarray(a[k], dtype=object), np.asarray(b[k], dtype=object)) for k in a)
+    outs = []
+    for span in (4.0, 7.0):
+        d = dict(s) if span != 4.0 else s                      # the second model works on a shallow copy of the same dictionary
+        d["mesh"] = mkmesh(2, ny, symmetry, "left", span=span)
+        want = d["mesh"].copy()
+        p = om.Problem(reports=False)
+        p.model.add_subsystem("geom", cls("geometry.geometry_group.Geometry")(surface=d), promotes=["*"])
+        p.setup()
+        p.run_model()
+        outs.append((span, np.array(p.get_val("mesh")), want, d))
+    snap["mesh"] = outs[0][2]
+    env.holds("C13,C20", "geometry set-up leaves the user's dictionary as written (no key added, no value changed)", same(s, snap),
+              "keys now %s" % sorted(set(s) ^ set(snap)))
+    for span, got, want, d in outs:
+        env.eq("C13", "all-default geometry returns the model's own mesh although the dictionary served another model before [span %s]" % span,
+               got, want)
